@@ -536,3 +536,25 @@ where
     y[1..].axpby(α / η * c, &w[1..], β);
     y[1..].axpby(α / η, &x[1..], T::one());
 }
+
+// ---------------------------------------------------------------------------
+// verification hooks (feature `verif-hooks`): add-only call-through wrappers
+// for the private free functions of this file.  No behaviour is added.
+// ---------------------------------------------------------------------------
+#[cfg(feature = "verif-hooks")]
+pub mod verif_hooks_socone {
+    use super::*;
+
+    pub fn step_length_soc_component<T: FloatT>(x: &[T], y: &[T], αmax: T) -> T {
+        _step_length_soc_component(x, y, αmax)
+    }
+    pub fn soc_residual<T: FloatT>(z: &[T]) -> T {
+        _soc_residual(z)
+    }
+    pub fn sqrt_soc_residual<T: FloatT>(z: &[T]) -> T {
+        _sqrt_soc_residual(z)
+    }
+    pub fn soc_residual_shifted<T: FloatT>(z: &[T], dz: &[T], α: T) -> T {
+        _soc_residual_shifted(z, dz, α)
+    }
+}
